@@ -671,6 +671,14 @@ func sameSizePrograms() [][]Req {
 		append([]Req{up("a", "AAAA"), up("b", "BBBB"), up("c", "CCCC"), comp("d", "a", "b"), comp("d", "a", "c")}, append(get("d"), Req{Kind: "list", B: "bkt"})...),
 		append([]Req{up("a", "AAAA"), up("b", "BBBB"), comp("x", "a", "b"), comp("y", "b", "a"), cp("y", "x")}, append(get("x"), get("y")...)...),
 		append([]Req{up("a", "AAAA"), up("b", "BBBB"), comp("x", "a"), comp("x", "b")}, get("x")...))
+	// composites that share their first source: composing [a, c] afterwards leaves the earlier [a, b] alone
+	// (successful, and refused on a missing later source), whichever was made first and whatever the sizes
+	for _, first := range []string{"AAAA", "A", strings.Repeat("A", 70)} {
+		progs = append(progs,
+			append([]Req{up("a", first), up("b", "BBBB"), up("c", "cc"), comp("x", "a", "b")}, append(get("x"),
+				append([]Req{comp("y", "a", "c")}, append(append(get("x"), get("y")...),
+					append([]Req{comp("z", "a", "missing"), comp("w", "a", "c", "b")}, append(append(get("x"), get("y")...), get("w")...)...)...)...)...)...))
+	}
 	return progs
 }
 
